@@ -20,6 +20,10 @@ def run(ctx):
         ctx.floor("C16.%s.shutdown-states" % which, len(sd.persistent), 6 if which == "pubsub" else 30)
         ctx.check(sd.returns["Ready"] >= 1 and sd.returns["Pending"] == 0, "C16.D1.terminates", "%s:shutdown-returns" % which,
                   "%s router: from each of %d states the shutdown poll finishes (Ready returns: %d, Pending returns: %d)" % (which, len(sd.persistent), sd.returns["Ready"], sd.returns["Pending"]), cfg.body.span)
+    # the final flush really reaches every subscriber / requestor: sweep rules of the two combinators' poll_flush
+    from . import sweeps
+    sweeps.fanout_sweep(ctx, F, "C16.D1", "poll_flush")
+    sweeps.router_retain(ctx, F, "C16.D1", "poll_flush")
     sh = F.one_body(r"^selium_server::server::Server::shutdown::\{closure#0\}$")
     ctx.touch(sh)
     fe = [c for c in sh.calls() if c.name() == "for_each" and "ValuesMut" in c.full]
